@@ -468,6 +468,24 @@ def translate(ctx):
     else:
         ctx.problem('proof', 'gen_linop', None,
                     'regenerated obligation gen_*_ok (adjoint/gram of the combinator classes == model) no longer proves: ' + (se or so)[-700:])
+    _translate_wavelet(ctx)
+
+
+def _translate_wavelet(ctx):
+    """Gen/wavelet_gen.v from WaveletOp.py: band-size recursion of __init__ == wlen of Model/Wavelet.v, ptwt calls (mode zero, level, axes) pinned"""
+    from translate import wavelet
+    out = vlib.COQ / 'Gen' / 'wavelet_gen.v'
+    ok, why = wavelet.write(out)
+    ctx.extra.setdefault('coverage', {})['wavelet_translator_available'] = ok
+    if not ok:
+        ctx.problem('proof', 'gen_wavelet', None, f'WaveletOp.py is outside the translated subset ({why}): the tie of Model/Wavelet.v to the source cannot be stated')
+        return
+    ctx.obligations += wavelet.N_OBLIGATIONS
+    rc, so, se = vlib.coqc_file(out)
+    if rc == 0:
+        ctx.discharged += wavelet.N_OBLIGATIONS
+    else:
+        ctx.problem('proof', 'gen_wavelet', None, 'regenerated obligation gen_coef_len_ok / gen_sizes_example (band sizes of WaveletOp.__init__ == model) no longer proves: ' + (se or so)[-600:])
 
 
 FAMILIES = [
